@@ -138,3 +138,50 @@ package metadatapart
 //@ effect[C04:appended-etag-is-the-multipart-etag] every mbs.metadataStore.AppendObject(_, _, _, $o, _)
 //@     needs before checksumutils.CalculateMultipartChecksums($parts, $t) -> ($cv, $e)
 //@     where $e == nil && $cv.ETag != nil && $o != nil && $o.ETag == *$cv.ETag && $t == checksumutils.ChecksumTypeFullObject && len($parts) == len($o.Parts)
+
+// C08. A copy within one physical store shares the source's parts. Every part row it writes for a shared part is marked
+// as carrying a pre-acquired registry reference, so the number of references acquired must equal the number of such
+// rows: ONE reference per same-store source part (a part id that occurs twice in the manifest is referenced twice),
+// acquired before the destination is recorded; if the references cannot be acquired nothing is recorded.
+//@ func (*metadataPartStorage).CopyObject$1
+//@ mode effects
+//@ trust nonnil metadatastore.MetadataStore.HeadObject
+//@ trust nonnil metadatastore.MetadataStore.HeadObjectVersion
+//@ loop 0 invariant 0 <= iter__ && iter__ <= len(range__) && len(sharedPartIDs) == specCountInStore(range__, iter__, dstStoreName)
+//@ effect[C08:one-reference-per-shared-part-row] every mbs.metadataStore.TryAddPartReferences(_, _, $ids) if same($ids, sharedPartIDs)
+//@     where len($ids) == specCountInStore(srcObject.Parts, len(srcObject.Parts), dstStoreName)
+//@ effect[C08:nothing-recorded-when-the-references-were-refused] every mbs.metadataStore.TryAddPartReferences(_, _, $ids) -> ($ok, $e) if !$ok || $e != nil
+//@     forbids after mbs.metadataStore.PutObject(_, _, _, _, _)
+
+// A part found through the dedup index is shared only after a registry reference on exactly that part was acquired.
+//@ func (*metadataPartStorage).tryShareDedupPart
+//@ mode effects
+//@ ensures[C08:shared-only-with-a-reference] result != nil ==> called(mbs.metadataStore.TryAddPartReferences) && result_of(mbs.metadataStore.TryAddPartReferences, 0) && result_of(mbs.metadataStore.TryAddPartReferences, 1) == nil
+//@ effect[C08:reference-on-the-indexed-part] every mbs.metadataStore.TryAddPartReferences(_, _, $ids) where len($ids) == 1 && existing != nil && $ids[0] == existing.PartId
+
+// C08 / C14. A storage-class transition keeps the parts that already live in the target store: one registry reference
+// per retained part row (the rows are replaced, so a missing reference would condemn live content); parts of other
+// stores are copied from the store they live in into the target store under a fresh id; the new manifest is handed
+// over only after the references were acquired, with the ETag guard of the object that was read.
+//@ func (*metadataPartStorage).TransitionObjectStorageClass$1
+//@ mode effects
+//@ trust nonnil metadatastore.MetadataStore.HeadObject
+//@ trust nonnil metadatastore.MetadataStore.HeadObjectVersion
+//@ loop 0 invariant 0 <= iter__ && iter__ <= len(range__) && len(sharedPartIDs) == specCountInStore(range__, iter__, targetStoreName)
+//@ effect[C08:one-reference-per-retained-part-row] every mbs.metadataStore.TryAddPartReferences(_, _, $ids)
+//@     where len($ids) == specCountInStore(object.Parts, len(object.Parts), targetStoreName)
+//@ effect[C08:no-transition-when-the-references-were-refused] every mbs.metadataStore.TryAddPartReferences(_, _, $ids) -> ($ok, $e) if !$ok || $e != nil
+//@     forbids after mbs.metadataStore.TransitionObject(_, _, _, _, _, _, _, _)
+//@ effect[C14:relocated-part-copied-from-its-store] every targetStore.PutPart(_, $t, $id, $r)
+//@     needs before partstore.PartStore($ss).GetPart(_, _, $gid) -> ($gr, $ge) needs before partstore.NewRandomPartId() -> ($nid, $ne)
+//@     where $ge == nil && $gid == srcPart.Id && $r == $gr && $ne == nil && $id == *$nid
+//@ effect[C14:transition-names-the-object-that-was-read] every mbs.metadataStore.TransitionObject(_, _, $b, $k, $v, $etag, $class, $parts)
+//@     where $b == bucketName && $k == key && specSameOpt($v, versionID) && $etag == object.ETag && same($parts, newParts) && len($parts) == len(object.Parts)
+
+// C08. An append that creates a new version shares every existing part: one registry reference per existing part row,
+// acquired before the new version is recorded; refused references record nothing.
+//@ func (*metadataPartStorage).AppendObject$1
+//@ mode effects
+//@ effect[C08:one-reference-per-shared-existing-part] every mbs.metadataStore.TryAddPartReferences(_, _, $ids) if same($ids, partIDs) where existingObject != nil && len($ids) == len(existingObject.Parts)
+//@ effect[C08:no-append-when-the-references-were-refused] every mbs.metadataStore.TryAddPartReferences(_, _, $ids) -> ($ok, $e) if same($ids, partIDs) && (!$ok || $e != nil)
+//@     forbids after mbs.metadataStore.AppendObject(_, _, _, _, _)
